@@ -168,6 +168,8 @@ func causeErr(c string) error {
 		e = &middleware.ResolutionAttemptLimitError{Question: dns.Question{Name: "x.", Qtype: 1, Qclass: 1}, Endpoint: "192.0.2.1:53", Transport: "udp"}
 	case "probe":
 		e = middleware.ErrFailureProbeLimit
+	case "shed":
+		e = middleware.ErrLocalLoadShed
 	case "maxrec":
 		e = middleware.ErrMaxRecursion
 	case "canceled":
@@ -193,6 +195,8 @@ func classifyErr(err error) string {
 		return "attempt"
 	case errors.Is(err, middleware.ErrFailureProbeLimit):
 		return "probe"
+	case errors.Is(err, middleware.ErrLocalLoadShed):
+		return "shed"
 	case errors.Is(err, middleware.ErrMaxRecursion):
 		return "maxrec"
 	case errors.Is(err, context.Canceled):
@@ -205,7 +209,7 @@ func classifyErr(err error) string {
 
 func localCause(c string) bool {
 	c = strings.TrimPrefix(c, "w:")
-	return c == "work" || c == "attempt" || c == "probe" || c == "maxrec" || c == "canceled" || c == "deadline"
+	return c == "work" || c == "attempt" || c == "probe" || c == "shed" || c == "maxrec" || c == "canceled" || c == "deadline"
 }
 
 // zoneStore counts what the resolver publishes.
@@ -989,7 +993,7 @@ func execServeECS(a []string) vlib.Res {
 				// audience the answer itself is filed under
 				ref.resetQ(k)
 				ref.resetMatching(k)
-				if rs <= 0 {
+				if rs <= 0 || rs > k.Scope.Addr().BitLen() { // no / zero / over-long SCOPE: a shared answer
 					g := k
 					g.Scope = netip.Prefix{}
 					ref.resetQ(g)
@@ -1220,7 +1224,7 @@ func execHLE(a []string) vlib.Res {
 	got := zs.recorded > 0
 	or := "ok"
 	cause := strings.TrimPrefix(a[4], "w:")
-	local := strings.ContainsAny(a[0], "edb") || (cause != "other" && cause != "none" && cause != "probe")
+	local := strings.ContainsAny(a[0], "edb") || (cause != "other" && cause != "none" && cause != "probe" && cause != "shed")
 	if got && local {
 		or = fmt.Sprintf("FAIL sig=hle/request-local-cause-recorded flags=%s cause=%s", a[0], a[4])
 	}
